@@ -21,11 +21,15 @@ FIXED_MODEL = os.environ.get("C09_MODEL", "fixed") != "upstream"
 TEMPLATES = {
     "alu": ("snax_alu", "add", 1),          # SNAXAluAccelerator.get_template: 1-d template
     "gemmx_mac": ("snax_gemmx", "mac", 3),  # matmul template (m, n, k)
+    "gemmx_qmac": ("snax_gemmx", "qmac", 3),  # quantised matmul: same template
     "gemmx_add": ("snax_gemmx", "add", 2),  # "rescale only" template (m, k)
     "none": (None, "add", None),            # no accelerator attribute: spatial_dims() asserts
+    "hwpe": ("snax_hwpe_mult", "add", None),  # registered, but not a SNAXStreamer: spatial_dims() asserts
+    "gemmini": ("gemmini", "add", None),      # idem
 }
 EL_BITS = {"i1": 1, "i8": 8, "i16": 16, "i32": 32, "i64": 64, "f16": 16, "f32": 32, "f64": 64, "index": None}
-KERNELS = {"mac": "kernel.mac %x, %y : i8, i8 -> i32", "add": "kernel.add %x, %y : i8, i8 -> i32"}
+KERNELS = {"mac": "kernel.mac %x, %y : i8, i8 -> i32", "add": "kernel.add %x, %y : i8, i8 -> i32",
+           "qmac": "kernel.qmac %x, %y zp_lhs : %z zp_rhs : %z : i8, i8, i32, i32 -> i32"}
 MAX_BOX = 8192
 
 
@@ -65,6 +69,64 @@ def amap(ndims, A, b):
     return f"affine_map<({', '.join(f'd{k}' for k in range(ndims))}) -> ({', '.join(exprs)})>"
 
 
+AFF_OPS = {"+": "+", "*": "*", "//": "floordiv", "%": "mod", "ceildiv": "ceildiv"}
+
+
+def aexpr_text(e):
+    if e[0] == "d":
+        return f"d{e[1]}"
+    if e[0] == "c":
+        return str(e[1])
+    return f"({aexpr_text(e[1])} {AFF_OPS[e[0]]} {aexpr_text(e[2])})"
+
+
+def amap_exprs(ndims, exprs):
+    return f"affine_map<({', '.join(f'd{k}' for k in range(ndims))}) -> ({', '.join(aexpr_text(e) for e in exprs)})>"
+
+
+def pattern_text(case, o):
+    n = o.get("ndims", case["ndims"])
+    if "exprs" in o:
+        return amap_exprs(n, o["exprs"])
+    return amap(n, o["A"], o["b"])
+
+
+_PARSED = {}
+
+
+def parsed_exprs(text):
+    """the affine map AS THE PASS SEES IT: parsed by xDSL (which may fold/reassociate), as JSON expressions"""
+    if text not in _PARSED:
+        from xdsl.ir.affine import AffineBinaryOpExpr, AffineBinaryOpKind, AffineConstantExpr, AffineDimExpr
+        from xdsl.parser import Parser
+        import snaxrun
+        tags = {AffineBinaryOpKind.Add: "+", AffineBinaryOpKind.Mul: "*", AffineBinaryOpKind.FloorDiv: "//",
+                AffineBinaryOpKind.Mod: "%", AffineBinaryOpKind.CeilDiv: "ceildiv"}
+
+        def of_x(e):
+            if isinstance(e, AffineDimExpr):
+                return ["d", e.position]
+            if isinstance(e, AffineConstantExpr):
+                return ["c", e.value]
+            if isinstance(e, AffineBinaryOpExpr):
+                return [tags[e.kind], of_x(e.lhs), of_x(e.rhs)]
+            raise ValueError(f"unsupported affine expression {e}")
+        m = Parser(snaxrun.ctx(), text).parse_attribute().data
+        if len(_PARSED) > 20000:
+            _PARSED.clear()
+        _PARSED[text] = (m.num_dims, [of_x(r) for r in m.results])
+    return _PARSED[text]
+
+
+def canon_json_local(x):
+    import json
+    return json.dumps(x, sort_keys=True)
+
+
+def has_divmod(e):
+    return e[0] not in "dc" and (e[0] in ("//", "%", "ceildiv") or has_divmod(e[1]) or has_divmod(e[2]))
+
+
 def layout_text(lay):
     """explicit layout of an operand in a case: ["tsl", [[ [step,bound].. ]..]] | ["strided", [..]]"""
     if lay is None:
@@ -90,7 +152,7 @@ def mlir(case):
     acc, kernel, _ = TEMPLATES[case["template"]]
     tys = [memref_ty(o) for o in ops]
     args = ", ".join(f"%a{i} : {t}" for i, t in enumerate(tys))
-    pats = ", ".join(amap(o.get("ndims", case["ndims"]), o["A"], o["b"]) for o in ops)
+    pats = ", ".join(pattern_text(case, o) for o in ops)
     bstr = ", ".join(f"{b} : index" for b in case["bounds"])
     accs = f'accelerator = "{acc}", ' if acc else ""
     nin = max(n - 1, 0)
@@ -160,12 +222,15 @@ def real_tsl(layout):
 def wellformed(case):
     """inside the property's quantifier: accelerator known, fixed-width element types, positive bounds,
     as many bounds as pattern dims, as many pattern results as memref dims, static positive shape"""
-    if TEMPLATES[case["template"]][0] is None:
+    if TEMPLATES[case["template"]][2] is None:   # no accelerator, or one without streamer template
         return False
     if any(b <= 0 for b in case["bounds"]):
         return False
     for o in case["operands"]:
-        if EL_BITS[o["el"]] is None or len(o["A"]) != len(o["shape"]) or any(s <= 0 for s in o["shape"]):
+        nres = len(o["exprs"]) if "exprs" in o else len(o["A"])
+        if EL_BITS[o["el"]] is None or nres != len(o["shape"]) or any(s <= 0 for s in o["shape"]):
+            return False
+        if "exprs" in o and any(has_divmod(e) for e in o["exprs"]):
             return False
         if o.get("ndims", case["ndims"]) != len(case["bounds"]):
             return False
@@ -222,7 +287,7 @@ def gen_schedule(rng, big=False):
     n = rng.choice([1, 2, 2, 3, 3, 3, 4, 4, 5, 6])
     bounds = [rng.choice(BOUNDS) for _ in range(n)]
     nops = rng.choice([1, 2, 3, 3, 3, 4])
-    template = rng.choice(["alu", "alu", "gemmx_mac", "gemmx_mac", "gemmx_add"])
+    template = rng.choice(["alu", "alu", "gemmx_mac", "gemmx_mac", "gemmx_add", "gemmx_qmac"])
     operands = []
     for _ in range(nops):
         rank = rng.choice([1, 2, 2, 2, 3, 3, 4])
@@ -248,6 +313,43 @@ def gen_schedule(rng, big=False):
         operands.append({"shape": shape, "el": rng.choice(ELS), "A": rows, "b": off, "layout": None})
     return {"kind": "schedule", "tiled": rng.random() < 0.6, "template": template, "ndims": n,
             "bounds": bounds, "operands": operands}
+
+
+def gen_aexpr(rng, n, depth, nonlinear):
+    """affine expressions as a front end writes them: sums, constant factors on either side, nesting, constants,
+    repeated dims; with `nonlinear` also floordiv / mod / ceildiv by a positive constant (-> ValueError)"""
+    if depth == 0 or rng.random() < 0.25:
+        if rng.random() < 0.8:
+            return ["d", rng.randrange(n)]
+        return ["c", rng.choice([0, 1, 2, 3, -1])]
+    k = rng.random()
+    if nonlinear and k < 0.25:
+        return [rng.choice(["//", "%", "ceildiv"]), gen_aexpr(rng, n, depth - 1, nonlinear), ["c", rng.choice([1, 2, 3, 4, 8])]]
+    if k < 0.65:
+        return ["+", gen_aexpr(rng, n, depth - 1, nonlinear), gen_aexpr(rng, n, depth - 1, nonlinear)]
+    c = ["c", rng.choice([0, 1, 2, 2, 3, 4, 8, -1, -2])]
+    e = gen_aexpr(rng, n, depth - 1, nonlinear)
+    return ["*", e, c] if rng.random() < 0.7 else ["*", c, e]
+
+
+def gen_schedule_exprs(rng):
+    """patterns given as general affine expressions (what AffineTransform.from_affine_map has to digest)"""
+    n = rng.choice([1, 2, 2, 3, 3, 4])
+    bounds = [rng.choice(BOUNDS) for _ in range(n)]
+    nonlinear = rng.random() < 0.2
+    operands = []
+    for _ in range(rng.choice([1, 2, 3])):
+        rank = rng.choice([1, 2, 2, 3])
+        exprs = [gen_aexpr(rng, n, rng.choice([1, 2, 2, 3]), nonlinear) for _ in range(rank)]
+        shape = [rng.choice([1, 2, 3, 4, 5, 6, 8, 9, 12, 16]) for _ in range(rank)]
+        operands.append({"shape": shape, "el": rng.choice(ELS), "exprs": exprs, "layout": None})
+    c = {"kind": "schedule", "tiled": rng.random() < 0.6,
+         "template": rng.choice(["alu", "gemmx_mac", "gemmx_add", "gemmx_qmac"]), "ndims": n, "bounds": bounds,
+         "operands": operands}
+    if rng.random() < 0.08:   # the guard comes before the schedule construction
+        o = rng.choice(operands)
+        o["layout"] = ["tsl", row_major_tsl(o["shape"])]
+    return c
 
 
 def row_major_tsl(shape):
@@ -292,8 +394,8 @@ def gen_malformed(rng):
         o["shape"].append(rng.choice([1, 2, 3, 4]))
     elif k == 4:    # element type without fixed width -> AssertionError once the stride is > 1
         rng.choice(c["operands"])["el"] = "index"
-    else:           # no accelerator attribute -> AssertionError once the stride is > 1
-        c["template"] = "none"
+    else:           # no accelerator attribute / not a streamer accelerator -> AssertionError once the stride is > 1
+        c["template"] = rng.choice(["none", "hwpe", "gemmini"])
     return c
 
 
@@ -354,6 +456,8 @@ class C09(Prop):
             yield gen_schedule(rng, big=not q)
         for _ in range(60 if q else 600):
             yield gen_explicit(rng)
+        for _ in range(200 if q else 3000):
+            yield gen_schedule_exprs(rng)
         for _ in range(120 if q else 1500):
             yield gen_malformed(rng)
         for _ in range(150 if q else 3000):
@@ -362,7 +466,8 @@ class C09(Prop):
             yield gen_addr(rng)
         for _ in range(150 if q else 3000):
             yield {"kind": "ensure", "s": rng.choice([1, 2, 3, 7, 8, 9, 15, 16, 17, 63, 64, 65, rng.randrange(1, 5000)]),
-                   "k": rng.randrange(0, 5), "template": rng.choice(["alu", "gemmx_mac", "gemmx_add", "none"]),
+                   "k": rng.randrange(0, 5),
+                   "template": rng.choice(["alu", "gemmx_mac", "gemmx_add", "gemmx_qmac", "none", "hwpe", "gemmini"]),
                    "el": rng.choice(ELS + ["index"])}
         if not q:
             yield from self.exhaustive()
@@ -458,14 +563,21 @@ class C09(Prop):
     def requests(self, case):
         k = case["kind"]
         if k == "schedule":
-            ops = []
+            ops, mops = [], []
             for o in case["operands"]:
                 lay = o.get("layout")
-                ops.append({"shape": o["shape"], "elBits": EL_BITS[o["el"]], "hasTsl": bool(lay and lay[0] == "tsl"),
-                            "ndims": o.get("ndims", case["ndims"]), "rows": o["A"]})
-            return [{"fn": "c09.rewrite", "args": {"fixed": FIXED_MODEL, "tiled": case["tiled"],
-                                                   "spatial": TEMPLATES[case["template"]][2],
-                                                   "bounds": case["bounds"], "ops": ops}}]
+                common = {"shape": o["shape"], "elBits": EL_BITS[o["el"]], "hasTsl": bool(lay and lay[0] == "tsl")}
+                if "A" in o:
+                    ops.append(dict(common, ndims=o.get("ndims", case["ndims"]), rows=o["A"]))
+                # what the pass reads from the IR: the pattern attribute as parsed by xDSL
+                nd, exprs = parsed_exprs(pattern_text(case, o))
+                mops.append(dict(common, ndims=nd, exprs=exprs))
+            hdr = {"fixed": FIXED_MODEL, "tiled": case["tiled"], "spatial": TEMPLATES[case["template"]][2],
+                   "bounds": case["bounds"]}
+            reqs = [{"fn": "c09.rewritemaps", "args": dict(hdr, ops=mops)}]
+            if len(ops) == len(case["operands"]):
+                reqs.append({"fn": "c09.rewrite", "args": dict(hdr, ops=ops)})
+            return reqs
         if k == "canon":
             return [{"fn": "c09.canon", "args": {"strides": case["strides"]}}]
         if k == "addr":
@@ -476,12 +588,15 @@ class C09(Prop):
         return []
 
     def model(self, case, answers):
-        a = answers[0]
-        if "err" in a:
-            return {"model_error": a["err"]}
-        r = a["ok"]
+        for a in answers:
+            if "err" in a:
+                return {"model_error": a["err"]}
+        r = answers[0]["ok"]
         k = case["kind"]
         if k == "schedule":
+            # the front-end model (affine maps) and the matrix model must agree
+            if len(answers) > 1 and canon_json_local(answers[1]["ok"]) != canon_json_local(r):
+                return {"model_split": {"maps": r, "matrix": answers[1]["ok"]}}
             if "raised" in r:
                 return {"raised": r["raised"]}
             if r["layouts"] is None:
@@ -566,7 +681,7 @@ class C09(Prop):
             tag = "D22" if under else None
             if prods != list(shape):
                 out.append({"what": f"operand {i}: bound products {prods} != shape {list(shape)} for layout {lay} "
-                                    f"(A={o['A']}, bounds={case['bounds']}, tiled={case['tiled']})", "finding": tag})
+                                    f"(pattern={o.get('A', o.get('exprs'))}, bounds={case['bounds']}, tiled={case['tiled']})", "finding": tag})
             if int(np.prod(shape)) <= 4 * MAX_BOX:
                 addrs = all_addresses(lay, shape)
                 uniq, first, counts = np.unique(addrs, return_index=True, return_counts=True)
@@ -631,11 +746,19 @@ class C09(Prop):
             for i in range(len(ops)):
                 yield dict(case, operands=ops[:i] + ops[i + 1:])
         n = case["ndims"]
-        if n > 1 and all(o.get("ndims", n) == n for o in ops) and len(case["bounds"]) == n:
+        if n > 1 and all(o.get("ndims", n) == n and "A" in o for o in ops) and len(case["bounds"]) == n:
             for k in range(n):
                 yield dict(case, ndims=n - 1, bounds=case["bounds"][:k] + case["bounds"][k + 1:],
                            operands=[dict(o, A=[r[:k] + r[k + 1:] for r in o["A"]]) for o in ops])
         for i, o in enumerate(ops):
+            if "exprs" in o:
+                for j, e in enumerate(o["exprs"]):
+                    if e[0] not in "dc":
+                        for sub in (e[1], e[2]):
+                            ne = list(o["exprs"])
+                            ne[j] = sub
+                            yield dict(case, operands=ops[:i] + [dict(o, exprs=ne)] + ops[i + 1:])
+                continue
             for j, row in enumerate(o["A"]):
                 for k2, c in enumerate(row):
                     if c not in (0, 1):
